@@ -57,7 +57,9 @@ func (g *valGen) floatOf(f float64) any {
 	return f
 }
 
-var intBoundaries = []int64{0, 1, -1, 2, 127, -128, 32767, -32768, math.MaxInt64, math.MinInt64, 42}
+var intBoundaries = []int64{0, 1, -1, 2, 127, -128, 32767, -32768, math.MaxInt64, math.MinInt64, 42,
+	// neighbours that no float64 tells apart
+	1 << 53, 1<<53 + 1, math.MaxInt64 - 1, math.MinInt64 + 1}
 var unsBoundaries = []uint64{0, 1, 2, 255, 65535, math.MaxUint32, math.MaxUint64, 42}
 var floatBoundaries = []float64{0, math.Copysign(0, -1), 1, -1, 0.5, 1.5, math.Inf(1), math.Inf(-1), math.SmallestNonzeroFloat64,
 	-math.SmallestNonzeroFloat64, math.MaxFloat64, 1e-310, 3.25, 1e6, 2.5e-7}
@@ -594,6 +596,31 @@ func runCollator(id, tier string, seed int64, out *Out) {
 		}
 		caseID++
 		pairLine(out, caseID, shared, xs, rebuild(xs), J{"copy": true, "fam": "wide-array-of-collections"})
+	}
+	// sequences of different lengths right at, just below and just above the traversal limit, the longer
+	// one first and second: the depth accounting must not depend on which operand is longer
+	for _, max := range []int{1, 2, 3, 5, 16} {
+		for _, levels := range []int{max - 2, max - 1, max} {
+			if levels < 0 {
+				continue
+			}
+			wrap := func(v any) any {
+				for i := 0; i < levels; i++ {
+					v = []any{v}
+				}
+				return v
+			}
+			for _, pair := range [][2]any{{[]any{int64(1), int64(2), int64(3)}, []any{int64(1), int64(2)}},
+				{col.List[any](notation).MakeFromArray([]any{int64(1), int64(2)}), col.List[any](notation).MakeFromArray([]any{int64(1)})},
+				{[]any{int64(1), int64(2)}, []any{int64(1), int64(2)}}} {
+				c := age.Collator[any]().MakeWithMaximum(max)
+				caseID++
+				pairLine(out, caseID, c, wrap(pair[0]), wrap(pair[1]), J{"fam": "longer-first-at-limit"})
+				c2 := age.Collator[any]().MakeWithMaximum(max)
+				caseID++
+				pairLine(out, caseID, c2, wrap(pair[1]), wrap(pair[0]), J{"fam": "longer-first-at-limit"})
+			}
+		}
 	}
 	// Go maps of every size up to 48 (the collator sorts the keys of both maps with the merge sorter:
 	// every length class of its passes is met), compared with an equal copy and with a changed copy
